@@ -28,6 +28,9 @@ pub enum Call {
     FacetCount,
     /// paths / depth / dependencies of every acceptance condition
     PathQueries,
+    /// restrict every acceptance condition by every single statement and value, in ascending or
+    /// descending order: creates the restricted diagrams in an order of its own
+    PreRestrict(bool),
     /// `Adf::fix_import()` on the live object (the documented repair step; must be harmless when
     /// nothing needs repair)
     FixImport,
@@ -52,13 +55,14 @@ impl Call {
             Call::FacetCount => "facet_count",
             Call::PathQueries => "path_queries",
             Call::FixImport => "fix_import",
+            Call::PreRestrict(_) => "pre_restrict",
             Call::BddOps(_) => "bdd_ops",
         }
     }
     pub fn is_semantics(&self) -> bool {
         !matches!(
             self,
-            Call::FormulaCountsNaive | Call::FacetCount | Call::PathQueries | Call::BddOps(_) | Call::FixImport
+            Call::FormulaCountsNaive | Call::FacetCount | Call::PathQueries | Call::BddOps(_) | Call::FixImport | Call::PreRestrict(_)
         )
     }
 }
@@ -78,6 +82,7 @@ pub fn call_strategy(with_bdd_ops: bool) -> BoxedStrategy<Call> {
         1 => Just(Call::FacetCount),
         2 => Just(Call::PathQueries),
         1 => Just(Call::FixImport),
+        2 => any::<bool>().prop_map(Call::PreRestrict),
     ];
     if with_bdd_ops {
         prop_oneof![
@@ -174,6 +179,30 @@ pub fn exec(adf: &mut Adf, call: &Call) -> Result<Raw, String> {
         Call::FixImport => {
             adf.fix_import();
             Raw::Numbers(vec![])
+        }
+        Call::PreRestrict(desc) => {
+            let acs = adf.ac.clone();
+            let mut order: Vec<(usize, usize, bool)> = Vec::new();
+            for (i, _) in acs.iter().enumerate() {
+                for v in 0..n {
+                    for val in [false, true] {
+                        order.push((i, v, val));
+                    }
+                }
+            }
+            if *desc {
+                order.reverse();
+            }
+            let mut tables = Vec::new();
+            for (i, v, val) in order {
+                let r = adf.bdd.restrict(acs[i], Var(v), val);
+                // second level: restricted once more by the next statement
+                let r2 = adf.bdd.restrict(r, Var((v + 1) % n.max(1)), !val);
+                if n <= 10 {
+                    tables.push((r2.value(), sut::table_of(&adf.bdd, r2, n)?));
+                }
+            }
+            Raw::Handles(tables)
         }
         Call::BddOps(ops) => {
             // issued list: bot, top, acceptance conditions
